@@ -122,13 +122,30 @@ class heap(object):
         return ptr_page["size"]
 
 
+def _sb_normalize(path):
+    """Resolve the '.' and '..' elements of the path elements list @path; the
+    result cannot climb above the sandbox base directory
+
+    """
+    out = []
+    for elt in path:
+        if elt == '.':
+            continue
+        if elt == '..':
+            if out:
+                out.pop()
+            continue
+        out.append(elt)
+    return out
+
+
 def windows_to_sbpath(path):
     """Convert a Windows path to a valid filename within the sandbox
     base directory.
 
     """
     path = [elt for elt in path.lower().replace('/', '_').split('\\') if elt]
-    return os.path.join(BASE_SB_PATH, *path)
+    return os.path.join(BASE_SB_PATH, *_sb_normalize(path))
 
 
 def unix_to_sbpath(path):
@@ -137,7 +154,7 @@ def unix_to_sbpath(path):
 
     """
     path = [elt for elt in path.split('/') if elt]
-    return os.path.join(BASE_SB_PATH, *path)
+    return os.path.join(BASE_SB_PATH, *_sb_normalize(path))
 
 def get_fmt_args(fmt, cur_arg, get_str, get_arg_n):
     idx = 0
